@@ -11,7 +11,7 @@ LEAN_FILE = 'PncProofs/C03.lean'
 NAMESPACE = 'Props.C03'
 LEAN_CONE = ['PncModel.Arr', 'PncModel.File', 'PncProofs.ArrLemmas', 'PncProofs.FiberLemmas', 'PncProofs.C03']
 LEMMA_FILES = ['PncProofs/FiberLemmas.lean']
-REQUIRED_THEOREMS = ['apply_fiberwise', 'fn_uniform', 'reducers_exclude_masked', 'untouched']
+REQUIRED_THEOREMS = ['apply_fiberwise', 'fn_uniform', 'apply_shape', 'reducers_exclude_masked', 'untouched']
 RULE = ('random files (as C02; float64 and int32 variables, masked and unmasked, coordinate variables) x 1-3 '
         'dimension functions in random keyword order: named reducers mean/sum/min/max/var (array methods, '
         'keepdims) and callables np.diff, x[::2], np.cumsum, x[::-1], np.convolve(x,[1,1],"valid") (the last '
